@@ -15,9 +15,10 @@ the relation as an invariant, `FInv`, next to `LInv` of `Props/C10Inv`:
 * under it `maybe_send_fin` keeps `LInv` (the FIN's number in `last_sent_seq_nr` is `snd_una + len`, the top of
   the allowed range) and so does the FIN branch of the RTO path.
 
-What is not covered: the own-initiative transition (`transition_to_fin_wait_1`) takes `seq_nr`, and that
-`seq_nr = snd_una + len` whenever nothing is unsent is argued in DESIGN.md but is not an invariant of the model
-yet; `FInv` for FinWait1 is therefore a hypothesis at that transition.
+The own-initiative transition (`transition_to_fin_wait_1`) took `seq_nr` until D26; trying to discharge the
+hypothesis `seq_nr = snd_una + len` that `transitionToFinWait1_finv` then needed showed that it is false while
+segments are being re-sent after an RTO (each re-send sets `seq_nr` back). The FIN is now numbered from the queue in
+both transitions and `FInv` needs no hypothesis about `seq_nr`.
 -/
 
 namespace UtpVerif.Props.C17Fin
@@ -249,12 +250,12 @@ theorem recvLoop_finv (fuel : Nat) (v : VSock) (c : Ctx) (acc : OnAckResult) (v'
         · simp only [pure, Except.pure, Except.ok.injEq, Prod.mk.injEq] at hp; rw [← hp.1]; exact f1
         · exact ih _ _ _ h1 f1 hp
 
-/-- Closing on the endpoint's own initiative establishes `FInv` provided `seq_nr` stands right after the queue and
-nothing queued is unsent - which is what `poll` checks (`!unsent`) before it calls `transition_to_fin_wait_1`,
-except that `seq_nr = snd_una + len` is not yet an invariant of the model (see the header). -/
-theorem transitionToFinWait1_finv (v : VSock) (hf : FInv v)
-    (hseq : v.seqNr = off v.segs.sndUna v.segs.segs.length) (htu : trailingUnsent v.segs.segs = 0) :
+/-- **Closing on the endpoint's own initiative establishes `FInv`** whenever nothing queued is unsent - which is
+what `poll` checks (`!unsent`) before it calls `transition_to_fin_wait_1`. Since D26 the FIN is numbered from the
+queue, so no hypothesis about `seq_nr` is left. -/
+theorem transitionToFinWait1_finv (v : VSock) (h : LInv v) (hf : FInv v) (htu : trailingUnsent v.segs.segs = 0) :
     FInv v.transitionToFinWait1 := by
+  have hl := h.len
   unfold transitionToFinWait1
   split
   all_goals first
@@ -262,10 +263,171 @@ theorem transitionToFinWait1_finv (v : VSock) (hf : FInv v)
     | (intro fin hfin
        simp only [VState.ourFinIfUnacked, Option.some.injEq] at hfin
        dsimp only
-       exact ⟨by rw [← hfin, hseq], htu⟩)
+       refine ⟨?_, htu⟩
+       rw [← hfin, off_nat]
+       unfold wadd
+       have : v.segs.segs.length % 65536 = v.segs.segs.length := by omega
+       rw [this])
+
+/-- and it keeps `LInv` (it touches neither the queue nor `last_sent_seq_nr`) -/
+theorem transitionToFinWait1_linv (v : VSock) (h : LInv v) : LInv v.transitionToFinWait1 := by
+  unfold transitionToFinWait1
+  split <;> first | exact h | exact h.congr rfl rfl
 
 /-- Non-vacuity: a connection without a scheduled FIN satisfies `FInv` (every connection starts like this), and a
 LastAck state whose FIN follows a two-segment queue does too. -/
 example (v : VSock) (h : v.state = .established) : FInv v := finv_of_none v (by rw [h]; rfl)
+
+/-- **`send_data!` keeps `FInv`** and never touches the connection state: a (re)transmission marks a queued segment,
+it neither moves `snd_una` nor changes the number of queued segments nor leaves an unsent segment where there was
+none. -/
+theorem sendData_finv (v : VSock) (c : Ctx) (hd : Header) (view : SegView) (v' : VSock) (c' : Ctx) (r : DataSend)
+    (h : LInv v) (hf : FInv v) (hview : ValidView v.segs view) (hs : v.sendData c hd view = .ok (v', c', r)) :
+    FInv v' ∧ v'.state = v.state := by
+  unfold sendData at hs
+  split at hs
+  · simp at hs
+  · dsimp only at hs
+    split at hs
+    · simp [throw, throwThe, MonadExceptOf.throw] at hs
+    · split at hs
+      · simp [throw, throwThe, MonadExceptOf.throw] at hs
+      · simp [throw, throwThe, MonadExceptOf.throw] at hs
+      · split at hs
+        · simp [throw, throwThe, MonadExceptOf.throw] at hs
+        · simp only [pure, Except.pure, Except.ok.injEq, Prod.mk.injEq] at hs
+          rw [← hs.1]; exact ⟨hf, rfl⟩
+        · simp only [pure, Except.pure, Except.ok.injEq, Prod.mk.injEq] at hs
+          rw [← hs.1]; exact ⟨hf.congr rfl rfl, rfl⟩
+        · simp only [pure, Except.pure, Except.ok.injEq, Prod.mk.injEq] at hs
+          have hO := fun t => onSent_ok v.segs view.idx t h.sinv
+          have hlen : ∀ t, (v.segs.onSent view.idx t).segs.length = v.segs.segs.length := fun t => shape_length _ _ (hO t).2.1
+          have hu : ∀ t, (v.segs.onSent view.idx t).sndUna = v.segs.sndUna := fun t => (hO t).2.2.2.1
+          have htl : ∀ t, trailingUnsent (v.segs.onSent view.idx t).segs ≤ trailingUnsent v.segs.segs :=
+            fun t => (onSent_tail v.segs view.idx t hview.1).1
+          rw [← hs.1]
+          have key : ∀ (w : VSock), w.state = v.state → (∃ t, w.segs = v.segs.onSent view.idx t) → FInv w := by
+            intro w hws ⟨t, hwt⟩ fin hfin
+            rw [hws] at hfin
+            obtain ⟨e1, e2⟩ := hf fin hfin
+            rw [hwt, hu, hlen]
+            exact ⟨e1, by have := htl t; omega⟩
+          by_cases hgt : seqGt view.seqNr v.lastSentSeqNr = true
+          · simp only [onPacketSent, hgt, if_true]
+            exact ⟨key _ rfl ⟨_, rfl⟩, trivial⟩
+          · simp only [onPacketSent, hgt, Bool.false_eq_true, if_false]
+            exact ⟨key _ rfl ⟨_, rfl⟩, trivial⟩
+
+/-- what a successful `send_data!` does to the queue: exactly `on_sent` of that segment -/
+theorem sendData_sent_segs (v : VSock) (c : Ctx) (hd : Header) (view : SegView) (v' : VSock) (c' : Ctx)
+    (hs : v.sendData c hd view = .ok (v', c', .sent)) : ∃ t, v'.segs = v.segs.onSent view.idx t := by
+  unfold sendData at hs
+  split at hs
+  · simp at hs
+  · dsimp only at hs
+    split at hs
+    · simp [throw, throwThe, MonadExceptOf.throw] at hs
+    · split at hs
+      · simp [throw, throwThe, MonadExceptOf.throw] at hs
+      · simp [throw, throwThe, MonadExceptOf.throw] at hs
+      · split at hs
+        · simp [throw, throwThe, MonadExceptOf.throw] at hs
+        · simp [pure, Except.pure] at hs
+        · simp [pure, Except.pure] at hs
+        · simp only [pure, Except.pure, Except.ok.injEq, Prod.mk.injEq] at hs
+          rw [← hs.1]
+          by_cases hgt : seqGt view.seqNr v.lastSentSeqNr = true
+          · simp only [onPacketSent, hgt, if_true]; exact ⟨_, rfl⟩
+          · simp only [onPacketSent, hgt, Bool.false_eq_true, if_false]; exact ⟨_, rfl⟩
+
+/-- **The RTO path keeps both invariants**: retransmitting the first outstanding segment puts `last_sent_seq_nr` on
+that segment (a queued one, below the never-sent tail); with an empty queue and an unacknowledged FIN it steps back
+by one and sends the FIN again, which `maybeSendFin_inv` covers. -/
+theorem rtoPhase_inv (v : VSock) (c : Ctx) (hd : Header) (v' : VSock) (c' : Ctx) (b : Bool) (h : LInv v) (hf : FInv v)
+    (he : v.rtoPhase c hd = .ok (v', c', b)) : LInv v' ∧ FInv v' := by
+  unfold rtoPhase at he
+  split at he
+  · simp [throw, throwThe, MonadExceptOf.throw] at he
+  · rename_i views hviews
+    have hvalid := validView_of_iter v.segs none h.sinv views hviews
+    split at he
+    · rename_i seg hhead
+      have hseg : ValidView v.segs seg := hvalid seg (List.mem_of_mem_head? hhead)
+      split at he
+      · simp [throw, throwThe, MonadExceptOf.throw] at he
+      · rename_i v1 c1 hsd
+        obtain ⟨t, hsegs⟩ := sendData_sent_segs _ _ _ _ _ _ hsd
+        obtain ⟨hf1, hst1⟩ := sendData_finv _ _ _ _ _ _ _ h hf hseg hsd
+        have hO := onSent_ok v.segs seg.idx t h.sinv
+        have hlen : (v.segs.onSent seg.idx t).segs.length = v.segs.segs.length := shape_length _ _ hO.2.1
+        have hu : (v.segs.onSent seg.idx t).sndUna = v.segs.sndUna := hO.2.2.2.1
+        have htl := (onSent_tail v.segs seg.idx t hseg.1).2
+        have hl := h.len
+        have hidx : seg.idx % 65536 = seg.idx := Nat.mod_eq_of_lt (by have := hseg.1; omega)
+        have hseq : seg.seqNr = off v.segs.sndUna seg.idx := by rw [hseg.2, hidx, off_nat]; rfl
+        have hrange : -32767 ≤ (seg.idx : Int) ∧ (seg.idx : Int) ≤ 32767 := by have := hseg.1; omega
+        have hss := seqSub_off v.segs.sndUna seg.idx h.una hrange
+        simp only [pure, Except.pure, Except.ok.injEq, Prod.mk.injEq] at he
+        obtain ⟨rfl, _, _⟩ := he
+        have fin_ok : ∀ (w : VSock), w.segs = v1.segs → w.state = v1.state → FInv w := fun w e1 e2 => hf1.congr e1 e2
+        have linv_ok : ∀ (w : VSock), w.segs = v1.segs → w.lastSentSeqNr = seg.seqNr → LInv w := by
+          intro w e1 e2
+          constructor
+          · rw [e1, hsegs]; exact hO.1
+          · rw [e1, hsegs, hu]; exact h.una
+          · rw [e2, hseq]; exact off_lt _ _
+          · rw [e1, hsegs, hlen]; exact hl
+          · rw [e1, e2, hsegs, hu, hseq, hss]; omega
+          · rw [e1, e2, hsegs, hu, hlen, hseq, hss]; have := hseg.1; omega
+          · rw [e1, e2, hsegs, hu, hlen, hseq, hss]; omega
+        split
+        · exact ⟨linv_ok _ rfl rfl, fin_ok _ rfl rfl⟩
+        · exact ⟨linv_ok _ rfl rfl, fin_ok _ rfl rfl⟩
+      · rename_i v1 c1 hsd
+        simp only [pure, Except.pure, Except.ok.injEq, Prod.mk.injEq] at he
+        obtain ⟨rfl, _, _⟩ := he
+        exact ⟨(sendData_linv _ _ _ _ _ _ _ h hseg hsd).1, (sendData_finv _ _ _ _ _ _ _ h hf hseg hsd).1⟩
+      · simp [throw, throwThe, MonadExceptOf.throw] at he
+    · split at he
+      · rename_i fin hfin
+        split at he
+        · rename_i hls
+          dsimp only at he
+          obtain ⟨hfe, htu⟩ := hf fin hfin
+          have hl := h.len
+          have hss : seqSub (off v.segs.sndUna v.segs.segs.length) v.segs.sndUna = v.segs.segs.length :=
+            seqSub_off _ _ h.una (by omega)
+          -- stepping back by one keeps the invariant
+          have hback : LInv { v with lastSentSeqNr := wsub v.lastSentSeqNr 1 } := by
+            have e : wsub v.lastSentSeqNr 1 = off v.segs.sndUna ((v.segs.segs.length : Int) - 1) := by
+              rw [hls, hfe, wsub_one_off _ (off_lt _ _), off_off]; rfl
+            have hs2 : seqSub (off v.segs.sndUna ((v.segs.segs.length : Int) - 1)) v.segs.sndUna = (v.segs.segs.length : Int) - 1 :=
+              seqSub_off _ _ h.una (by omega)
+            constructor <;> dsimp only
+            · exact h.sinv
+            · exact h.una
+            · rw [e]; exact off_lt _ _
+            · exact hl
+            · rw [e, hs2]; omega
+            · rw [e, hs2]; omega
+            · rw [e, hs2, htu]; omega
+          have hfback : FInv { v with lastSentSeqNr := wsub v.lastSentSeqNr 1 } := hf.congr rfl rfl
+          split at he
+          · simp [throw, throwThe, MonadExceptOf.throw] at he
+          · rename_i v2 c2 sent hmf
+            obtain ⟨hl2, hf2, _⟩ := maybeSendFin_inv _ _ _ _ _ hback hfback hmf
+            split at he
+            · simp only [pure, Except.pure, Except.ok.injEq, Prod.mk.injEq] at he
+              obtain ⟨rfl, _, _⟩ := he
+              exact ⟨hl2.congr rfl rfl, hf2.congr rfl rfl⟩
+            · simp only [pure, Except.pure, Except.ok.injEq, Prod.mk.injEq] at he
+              obtain ⟨rfl, _, _⟩ := he
+              exact ⟨hl2, hf2⟩
+        · simp only [pure, Except.pure, Except.ok.injEq, Prod.mk.injEq] at he
+          obtain ⟨rfl, _, _⟩ := he
+          exact ⟨h.congr rfl rfl, hf.congr rfl rfl⟩
+      · simp only [pure, Except.pure, Except.ok.injEq, Prod.mk.injEq] at he
+        obtain ⟨rfl, _, _⟩ := he
+        exact ⟨h.congr rfl rfl, hf.congr rfl rfl⟩
 
 end UtpVerif.Props.C17Fin
